@@ -355,6 +355,8 @@ class C19(core.PropBase):
         return self.impl(case) != self.model_obs(case, replies)
 
     def shrink_candidates(self, case):
+        if case.get("kind") == "env" or not isinstance(case.get("doc", {}).get("steps"), list):
+            return
         for c in c05.PROP.shrink_candidates(dict(case, envs=[])):
             c.pop("envs", None)
             yield c
